@@ -4,7 +4,8 @@ PROP = {
     "generated": ["FormConsts", "FormImpls"],
     "lean_modules": ["SwimVerif.Model.FormSchema", "SwimVerif.Model.FormWF", "SwimVerif.Model.FormIO",
                      "SwimVerif.Model.FormMon", "SwimVerif.Proofs.FormSchema", "SwimVerif.Proofs.FormTypes", "SwimVerif.Proofs.FormReset",
-                     "SwimVerif.Generated.FormConsts"],
+                     "SwimVerif.Generated.FormConsts", "SwimVerif.Model.MsgPack", "SwimVerif.Model.MsgPackIO",
+                     "SwimVerif.Proofs.MsgPack"],
     "engines": [
         # model of as_value / try_from_value against the real derive output, on written and on mutated values
         {"name": "form-model", "crate": "form", "bin": "sv-c16", "machine": "c16",
@@ -14,6 +15,11 @@ PROP = {
         {"name": "form-paths", "crate": "form", "bin": "sv-c16", "machine": "c16", "modes": ["monitor"],
          "features": [], "cases": {"quick": 24000, "thorough": 800000}, "min_shard": 2000,
          "gen_args": ["paths"], "nontrivial_min_ops": 4},
+        # byte-level MessagePack model (Model/MsgPack.lean) against the real writer and reader on generic Values,
+        # written bytes, trailing bytes, every truncation of small values, flipped / inserted / deleted bytes
+        {"name": "form-msgpack", "crate": "form", "bin": "sv-c16mp", "machine": "c16mp",
+         "features": [], "cases": {"quick": 6000, "thorough": 300000}, "min_shard": 1500,
+         "gen_args": [], "nontrivial_min_ops": 4},
     ],
     "level_text": "Proof: for every schema satisfying the explicit decidable condition tyWF (all combinations of "
                   "tag/rename, header_body, header, attr, slot, body, skip over integer kinds, bool, text, unit, Option, "
@@ -23,15 +29,24 @@ PROP = {
                   "necessary by a witness the macro accepts (model and real code). The model (layout + recognisers on "
                   "bridge events, incl. tuple structs, newtypes, enums) is tied to the real derive output by "
                   "differential execution over a battery of about 500 types (100 base types incl. every hand-written Form impl of swimos_form for std/library types - enumerated from the source, coverage enforced by the extractor - and maps with compound keys, each also as Vec / Option / struct field / HashMap value, so that reset-and-reused recognisers are exercised) on written and mutated values; the two "
-                  "Recon reading paths, the MessagePack round trip and 'one decoder instance = fresh reads' are decided on "
-                  "the implementation by a monitor.",
+                  "Recon reading paths, the MessagePack round trip of the battery types and 'one decoder instance = fresh reads' are decided on "
+                  "the implementation by a monitor. MessagePack byte level (generic Value path): an executable model of the "
+                  "swimos_msgpack writer (rmp minimal integer encodings, str/bin/map/array/ext size classes, big integers as "
+                  "ext 0/1, attributes as a map header + str names, map vs array bodies, slots as 2-arrays) and of the reader "
+                  "composed with ValueMaterializer; proved for ALL float-free values: read(write(v) ++ rest) = (norm v, rest) "
+                  "where norm only re-kinds machine integers (C16_msgpack_value_roundtrip, _norm_equiv, _prefix_free); tied to the real "
+                  "crate by differential execution on written, extended, truncated and byte-mutated streams.",
     "level_note": "The proc-macro expansion is exercised (battery), not modelled; a newtype used as #[form(body)] is in the "
                   "executable model and the correspondence but outside the theorem's tyWF fragment; the Recon "
-                  "parser and the MessagePack byte level are not modelled (implementation-vs-implementation oracles); "
-                  "floats, blobs, big integers, generic Value and map fields are exercised implementation-side only.",
+                  "parser is not modelled (implementation-vs-implementation oracle); the MessagePack byte model covers the "
+                  "generic Value path only (typed recognisers reading MessagePack are decided by the monitor), excludes float "
+                  "tokens (0xca/0xcb: the framework keeps floats as decimals, mutants containing such a byte are not compared) and "
+                  "lengths >= 2^32; "
+                  "floats, blobs, big integers, generic Value and map fields of derived types are exercised implementation-side only.",
     "trusted_base": COMMON_TRUST + [
         "hand-written schema descriptors of the battery types in sv-c16.rs (checked against the model by the as_value diff)",
-        "modelled, not verified: the expansion of #[derive(Form)], nom Recon parser, rmp",
+        "modelled, not verified: the expansion of #[derive(Form)], nom Recon parser, rmp (its encoders are part of the MsgPack model, checked by the byte diff), num-bigint to_bytes_be/from_bytes_be",
+        "the value encoding <venc> shared with C09 (renderer in sv-c16mp.rs, parser in Model/ReconProto.lean)",
     ],
     "assumptions": ["instances satisfy okInst (skipped fields hold Default::default())",
                     "Value inputs of the model engine use the integer/bool/text/record kinds only"],
